@@ -34,7 +34,7 @@ ASSUMPTIONS = [
 ]
 BUDGET = {
     "quick": {"shards": 16, "examples": 40, "wall": 110, "fit_examples": 4},
-    "thorough": {"shards": 16, "examples": 2500, "wall": 3300, "fit_examples": 35},
+    "thorough": {"shards": 16, "examples": 2500, "wall": 1200, "fit_examples": 35},
 }
 FIELDS = {
     "common_subexpression_elimination": st.booleans(),
